@@ -311,7 +311,15 @@ func TestVerifC02Gating(t *testing.T) {
 					// hours before D 00:00 UTC, and "no more than 21 days before the run" has two readings (the
 					// library's own files end at midnight UTC, where they coincide). Where they differ either is accepted.
 					if alt := gate.WeekUploadable(named, w.earliest, x); alt != w.uploadable {
-						_, w.uploadable = after["local/"+wk+".json"]
+						// (what the uploader decided: the ready report is in local/, or already in upload/ when it was sent and acknowledged in this run)
+						_, ready := after["local/"+wk+".json"]
+						_, done := after["upload/"+wk+".json"]
+						w.uploadable = ready || done
+						for _, r := range reqs {
+							if r.Path == "/"+wk {
+								w.uploadable = true // sent in this run (and perhaps refused and discarded)
+							}
+						}
 						vstats.Label("ageLimitAmbiguousForZonedEnd")
 					}
 				}
